@@ -201,23 +201,40 @@ func runC06(c *Checker) {
 	if nSend == 0 {
 		c.fail("QUIESCE", "queue.resend|transmit", resend.Pos(), "queue.resend never transmits")
 	}
-	// the resend closure re-arms the ticker after a resend
-	rq := (*ssa.Function)(nil)
-	for _, a := range sl.AnonFuncs {
-		if len(findCalls(a, func(ci ssa.CallInstruction) bool { return ci.Common().StaticCallee() == resend })) > 0 {
-			rq = a
+	// the resend ticker is re-armed after every resend of the send goroutine: whichever
+	// function of the send goroutine calls queue.resend (a closure of the loop, a method,
+	// or the loop itself), no path leads from that call to a nil return of the function
+	// without passing resendTicker.Reset
+	nRQ := 0
+	for fn := range w.ReachableSameGoroutine(sl) {
+		fn := fn
+		rcs := findCalls(fn, func(ci ssa.CallInstruction) bool { return ci.Common().StaticCallee() == resend })
+		if len(rcs) == 0 {
+			continue
+		}
+		isReset := func(in ssa.Instruction) bool {
+			ci, ok := in.(ssa.CallInstruction)
+			if !ok {
+				return false
+			}
+			sc := ci.Common().StaticCallee()
+			return sc != nil && isMethod(sc, "time", "Ticker", "Reset") && len(ci.Common().Args) > 0 && fieldOfValue(ci.Common().Args[0]) == fResendT
+		}
+		for _, rc := range rcs {
+			nRQ++
+			rc := rc
+			ret := pathToReturn(rc, func(r *ssa.Return) bool {
+				if len(r.Results) == 0 {
+					return true
+				}
+				return isNilConst(r.Results[len(r.Results)-1])
+			}, isReset)
+			hasReset := len(findCalls(fn, func(ci ssa.CallInstruction) bool { return isReset(ci) })) > 0
+			c.decide(ret == nil && hasReset, "QUIESCE", "resendQueue|ticker re-armed after resend", fn.Pos(), "resendTicker.Reset follows queue.resend on every way to a successful return", "the resend ticker is not re-armed after a resend")
 		}
 	}
-	if rq == nil {
-		c.fail("QUIESCE", "resendQueue|closure", sl.Pos(), "no helper of the send loop calls queue.resend")
-	} else {
-		rs := findCalls(rq, func(ci ssa.CallInstruction) bool {
-			sc := ci.Common().StaticCallee()
-			return sc != nil && isMethod(sc, "time", "Ticker", "Reset") && fieldOfValue(ci.Common().Args[0]) == fResendT
-		})
-		rc := findCalls(rq, func(ci ssa.CallInstruction) bool { return ci.Common().StaticCallee() == resend })
-		okk := len(rs) == 1 && len(rc) == 1 && instrDominates(rc[0], rs[0])
-		c.decide(okk, "QUIESCE", "resendQueue|ticker re-armed after resend", rq.Pos(), "resendTicker.Reset follows queue.resend", "the resend ticker is not re-armed after a resend")
+	if nRQ == 0 {
+		c.fail("QUIESCE", "resendQueue|closure", sl.Pos(), "no function of the send goroutine calls queue.resend")
 	}
 	c.floor("QUIESCE", 2)
 
